@@ -182,8 +182,18 @@ fn run_send(sh: &dyn DynShape, asynchronous: bool, msgs: &Msgs, max_len: usize, 
     Ok((rep, sink.data.clone(), sink.calls, sink.log.clone()))
 }
 
-fn run_recv(sh: &dyn DynShape, asynchronous: bool, data: Vec<u8>, max_len: usize, nmsgs: usize, script: Vec<ROut>, tail: ROut, budget: usize, retries: usize) -> Result<(Vec<RecvRes>, bool), String> {
+#[allow(clippy::too_many_arguments)]
+fn run_recv(sh: &dyn DynShape, asynchronous: bool, data: Vec<u8>, max_len: usize, nmsgs: usize, script: Vec<ROut>, tail: ROut, budget: usize, retries: usize, capacity: Option<usize>) -> Result<(Vec<RecvRes>, bool), String> {
     let mut source = ScriptSource::new(data, script, tail, budget);
+    // an explicit (tight) buffer capacity makes the receiver compact its buffer often
+    crate::io_glue::IO_CAPACITY.with(|c| c.set(capacity));
+    struct Reset;
+    impl Drop for Reset {
+        fn drop(&mut self) {
+            crate::io_glue::IO_CAPACITY.with(|c| c.set(None));
+        }
+    }
+    let _reset = Reset;
     if asynchronous {
         let r = lib(|| sh.io_async_recv(&mut source, max_len, nmsgs + retries + 4, retries, 4 * budget + 64))?;
         Ok((r.events, r.stalled))
@@ -334,19 +344,23 @@ impl Property for C09 {
                             }
                         }
                     }
-                    // ---- reader
+                    // ---- reader (default buffer of 2 * max_len, and a buffer that just holds the largest message plus
+                    // one alignment unit, so that the receiver has to compact before most reads)
                     let stream = msgs.stream();
-                    for chunk in [usize::MAX, 3, 1] {
+                    let tight = model::round_up(msgs.largest, model::align(ty)) + model::align(ty);
+                    for (chunk, capacity) in [(usize::MAX, None), (3, None), (1, None), (usize::MAX, Some(tight)), (5, Some(tight))] {
                         if chunk == 1 && total > 40 {
                             continue;
                         }
                         let budget = 2 * total + total + 16;
                         let mut probe = ScriptSource::new(stream.clone(), vec![], ROut::Deliver(chunk), budget);
+                        crate::io_glue::IO_CAPACITY.with(|c| c.set(capacity));
                         let base = if asynchronous {
                             lib(|| sh.io_async_recv(&mut probe, max_len, msgs.values.len() + 3, 0, 8 * budget)).map(|x| x.events)
                         } else {
                             lib(|| sh.io_recv_blocking(&mut probe, max_len, msgs.values.len() + 3, 0)).map(|x| x.events)
                         };
+                        crate::io_glue::IO_CAPACITY.with(|c| c.set(None));
                         let base = match base {
                             Ok(b) => b,
                             Err(p) => crate::vfail!("panic", "{}: fault-free {} receive panicked: {}", name, variant, p),
@@ -363,10 +377,10 @@ impl Property for C09 {
                                     let mut script: Vec<ROut> = (0..call).map(|_| ROut::Deliver(chunk)).collect();
                                     script.push(o.clone());
                                     let tail = if persistent { o.clone() } else { ROut::Deliver(chunk) };
-                                    let what = format!("[{} receiver, messages {:?}, chunk {}, fault {:?} at pipe call {}{}]", variant, msgs.values.iter().map(|v| v.show()).collect::<Vec<_>>(), chunk as isize, o, call, if persistent { " (persistent)" } else { "" });
+                                    let what = format!("[{} receiver, messages {:?}, chunk {}, buffer capacity {:?}, fault {:?} at pipe call {}{}]", variant, msgs.values.iter().map(|v| v.show()).collect::<Vec<_>>(), chunk as isize, capacity, o, call, if persistent { " (persistent)" } else { "" });
                                     st.eval(1);
                                     let retries = 3;
-                                    let (recvs, stalled) = match run_recv(sh, asynchronous, stream.clone(), max_len, msgs.values.len(), script, tail, budget, retries) {
+                                    let (recvs, stalled) = match run_recv(sh, asynchronous, stream.clone(), max_len, msgs.values.len(), script, tail, budget, retries, capacity) {
                                         Ok(x) => x,
                                         Err(p) => crate::vfail!("panic", "{}: {} {}", name, p, what),
                                     };
@@ -382,7 +396,7 @@ impl Property for C09 {
                                     if is_eof && !matches!(recvs.last(), Some(RecvRes::Closed)) {
                                         crate::vfail!("eof-not-closed", "{}: end of stream is not reported as Closed: {:?} {}", name, recvs.last(), what);
                                     }
-                                    st.nontrivial((name, which, variant, chunk, call, format!("{:?}", o), persistent, "r"), || json!({"side": "read", "shape": name, "variant": variant, "fault": format!("{:?}", o), "call": call, "persistent": persistent, "events": recvs.len()}));
+                                    st.nontrivial((name, which, variant, chunk, capacity, call, format!("{:?}", o), persistent, "r"), || json!({"side": "read", "shape": name, "variant": variant, "fault": format!("{:?}", o), "call": call, "persistent": persistent, "events": recvs.len()}));
                                 }
                             }
                         }
@@ -495,11 +509,17 @@ impl Property for C09 {
                 let k = t.below(stream.len().min(65535));
                 stream.truncate(k);
             }
+            let capacity = if t.chance(1, 2) {
+                let a = model::align(ty);
+                Some(model::round_up(msgs.largest + t.below(msgs.largest + 2 * a + 1), a).max(model::min_size(ty)))
+            } else {
+                None
+            };
             let budget = 2 * total + script.len() + 16;
-            let what = format!("[{} receiver, messages {:?}, script {:?}, then {:?}, stream cut to {} of {} bytes]", variant, msgs.values.iter().map(|v| v.show()).collect::<Vec<_>>(), script, tail, stream.len(), total);
+            let what = format!("[{} receiver, messages {:?}, script {:?}, then {:?}, stream cut to {} of {} bytes, buffer capacity {:?}]", variant, msgs.values.iter().map(|v| v.show()).collect::<Vec<_>>(), script, tail, stream.len(), total, capacity);
             st.eval(1);
             let retries = nfaults + 2;
-            let (recvs, stalled) = match run_recv(sh, asynchronous, stream.clone(), max_len, msgs.values.len(), script.clone(), tail.clone(), budget, retries) {
+            let (recvs, stalled) = match run_recv(sh, asynchronous, stream.clone(), max_len, msgs.values.len(), script.clone(), tail.clone(), budget, retries, capacity) {
                 Ok(x) => x,
                 Err(p) => crate::vfail!("panic", "{}: {} {}", name, p, what),
             };
